@@ -188,12 +188,14 @@ def shards(tier):
     if tier == "quick":
         return [{"kind": "program", "name": f"dag{i}", "n": 110, "profile": "dag", "rotate": i * 23} for i in range(6)] + [
             {"kind": "program", "name": f"focus-{fam}", "n": 120, "profile": "dag", "rotate": 3 + j * 17, "focus": fam, "max_ops": 2} for j, fam in enumerate(FOCUS)] + [
+            {"kind": "sweep", "name": f"sweep{i}", "part": i, "of": 4, "per": 5} for i in range(4)] + [
             {"kind": "program", "name": "proc", "n": 8, "profile": "dag", "executors": ["processes"], "max_ops": 3, "rotate": 5},
             {"kind": "program", "name": "proc-batch", "n": 14, "profile": "fusion-rich", "executors": ["processes"], "max_ops": 3, "min_ops": 2, "rotate": 8,
              "force": {"optimize": False, "batch": [1, 2]}},
         ]
     out = [{"kind": "program", "name": f"dag{i}", "n": 2600, "profile": "dag", "rotate": i * 11} for i in range(13)]
     out += [{"kind": "program", "name": f"focus-{fam}-{i}", "n": 2500, "profile": "dag", "rotate": 3 + j * 17 + i * 29, "focus": fam, "max_ops": 2} for j, fam in enumerate(FOCUS) for i in range(2)]
+    out += [{"kind": "sweep", "name": f"sweep{i}", "part": i, "of": 8, "per": 120} for i in range(8)]
     out += [{"kind": "program", "name": "proc", "n": 150, "profile": "dag", "executors": ["processes"], "max_ops": 3, "rotate": 3},
             {"kind": "program", "name": "proc-batch", "n": 150, "profile": "fusion-rich", "executors": ["processes"], "max_ops": 3, "min_ops": 2, "rotate": 8,
              "force": {"optimize": False, "batch": [1, 2]}}]
@@ -208,6 +210,16 @@ def run_shard(spec, seed, tier) -> Acc:
     opts = {"rotate": spec.get("rotate", 0)}
     if spec.get("focus"):
         opts["only_ops"] = focus_ops(spec["focus"])
+    if spec["kind"] == "sweep":
+        # every operation of the op table is visited in every run: `per` one- or two-operation programs whose operations are that
+        # operation (its parameters, input shapes, chunkings and dtypes drawn) plus cheap fillers that provide suitable operands
+        names = sorted(set(P.weighted_names("dag")))[spec["part"]::spec["of"]]
+        for j, nm in enumerate(names):
+            o = dict(opts, only_ops=[nm, "pick"], rotate=0)
+            core.hyp_run(case_strategy("dag", opts=o, max_ops=2, min_ops=1), check_case, seed=seed + j, max_examples=spec["per"], acc=acc,
+                         budget_s=60 if tier == "quick" else 900, shrink=False, is_known=is_known)
+        acc.extra["generation"] = dict(P.GEN_STATS)
+        return acc
     strat = case_strategy(spec.get("profile", "dag"), opts=opts, max_ops=spec.get("max_ops", 6), executors=spec.get("executors"), min_ops=spec.get("min_ops", 0), force=spec.get("force"))
     core.hyp_run(strat, check_case, seed=seed, max_examples=spec["n"], acc=acc, budget_s=420 if tier == "quick" else 3000,
                  shrink=(tier == "thorough"), is_known=is_known)
